@@ -47,9 +47,10 @@ type defaultT struct {
 }
 
 var types = []typ{
-	{"str", sess.OIDText, [][]byte{[]byte("a"), []byte("it's a \\ text 'value'"), bytes.Repeat([]byte("x"), 300), []byte("üñí✓")},
+	// (the empty value is stored as it is: the declared type's encoding of "empty" comes back)
+	{"str", sess.OIDText, [][]byte{[]byte("a"), []byte("it's a \\ text 'value'"), bytes.Repeat([]byte("x"), 300), []byte("üñí✓"), []byte("")},
 		[]defaultT{{"dflt", true}, {"", true}}},
-	{"bytes", sess.OIDBytea, [][]byte{{0x00, 0xff, '\'', '\\', 0x80}, []byte("a"), bytes.Repeat([]byte{0xAB}, 300)},
+	{"bytes", sess.OIDBytea, [][]byte{{0x00, 0xff, '\'', '\\', 0x80}, []byte("a"), bytes.Repeat([]byte{0xAB}, 300), {}},
 		[]defaultT{{"ZGZsdA==", true}, {"not base64 !", false}}},
 	{"int32", sess.OIDInt4, [][]byte{[]byte("0"), []byte("-1"), []byte("2147483647"), []byte("-2147483648")},
 		[]defaultT{{"7", true}, {"-2147483648", true}, {"2147483648", false}, {"x", false}}},
@@ -438,6 +439,14 @@ func checkConfig(r *ev.Run, ks *filesystem.KeyStore, c cfgT, thorough bool) {
 							bad("null-changed", "NULL came back as %.30x", got)
 						}
 						continue
+					}
+					if len(st0) == 0 {
+						// the empty value is stored as it is (nothing to reveal, nothing protected): every reader
+						// may get it back as the empty value in the encoding of the protocol format, or what
+						// the policy prescribes (same reading as the MySQL half)
+						if len(got) == 0 || bytes.Equal(got, []byte("\\x")) {
+							continue
+						}
 					}
 					var allowed [][]byte
 					if policy == "default_value" {
